@@ -54,7 +54,9 @@ MINIMUMS = {
 
 FNS = [kinds.node, kinds.node2, kinds.two, kinds.three, kinds.Base, kinds.Mid, kinds.Other,
        kinds.target3, kinds.DC, dup1.same, dup2.same, kinds.WithMethods.smake,
-       kinds.Float, kinds.Dict, kinds.DCFrozen, kinds.ret_point, kinds.ret_int, kinds.ret_color]
+       kinds.Float, kinds.Dict, kinds.DCFrozen, kinds.ret_point, kinds.ret_int, kinds.ret_color,
+       # a classmethod inherited by a subclass; a method bound to an instance (to be refused)
+       kinds.MethSub.cmake, kinds.Meth.cmake, kinds.meth_instance.apply]
 POS_FNS = [kinds.posnode, kinds.PosInit, sigs.g_ab_c_va, sigs.g_a1_b2_va_k_vk]
 LEAVES = [0, 1, -7, 2**70, 2.5, -0.5, 1e300, 'a', 'name with "quotes" and \\ backslash', '', None,
           True, False, (1, 2), (), ('x', (3, 4)), b'bytes\xff', kinds.Color.RED, kinds.Level.HIGH,
@@ -755,7 +757,8 @@ def rand_value(rng, depth=2):
         lambda: complex(rng.choice([0.0, -0.0, 1.5, -2.0, float('inf'), float('nan')]),
                         rng.choice([0.0, -0.0, 2.0, -3.5, float('-inf')])),
         lambda: rng.choice([kinds.Color.RED, kinds.Level.LOW, kinds.two, kinds.Base, kinds, vt,
-                            dup1.same, dup2.Thing, int, list, vtags.TagA, kinds.WithMethods.smake]),
+                            dup1.same, dup2.Thing, int, list, vtags.TagA, kinds.WithMethods.smake,
+                            kinds.MethSub.cmake, kinds.Meth.cmake]),
         lambda: slice(rng.choice([None, 1, -1]), rng.choice([None, 5]), rng.choice([None, 2, -1])),
     ]
     return rng.choice(pool)()
